@@ -265,12 +265,18 @@ package parse
 
 //@ func EncodeURL
 //@   ensures[S]  len(result) >= len(b)
-// DecodeURL gives '%' and '+' a meaning of their own, so the tables it is to invert must escape those two bytes
-//@   ensures[F,C16] @tables-invertible: URLEncodingTable['%'] && URLEncodingTable['+'] && DataURIEncodingTable['%'] && DataURIEncodingTable['+']
+// DecodeURL gives '%' and '+' a meaning of their own, so the URL table must escape both; a data URI is decoded by percent
+// escapes only, so its table must escape '%'
+//@   ensures[F,C16] @tables-invertible: old(URLEncodingTable['%'] && URLEncodingTable['+'] && DataURIEncodingTable['%'])
 //@   loop * candidate 0 <= i && i <= len(b)
 //@   loop * candidate len(b) >= len(old(b))
 
 //@ func DecodeURL
+//@   ensures[S]  len(result) <= len(b)
+//@   ensures[F,C16] @frame: sameBytesExcept(ptr(b), ptr(b) + len(b))
+
+// the scanner behind DecodeURL (form encoding: '+' is a space) and DataURI (percent escapes only)
+//@ func decodeURL
 //@   ensures[S]  len(result) <= len(b)
 // decodes in place: nothing outside the argument's bytes is written
 //@   ensures[F,C16] @frame: sameBytesExcept(ptr(b), ptr(b) + len(b))
